@@ -73,6 +73,16 @@ def _visible_text(doc, t):
   return sorted(out), isd
 
 
+def _p_aligns(isd):
+  out = {}
+  for reg in isd.iter_regions():
+    for body in reg:
+      for e in body.dfs_iterator():
+        if isinstance(e, model.P) and e.get_id() is not None:
+          out[e.get_id()] = str(e.get_style(SP.TextAlign))
+  return out
+
+
 def _all_elements(doc):
   els = list(doc.iter_regions())
   if doc.get_body() is not None:
@@ -96,6 +106,13 @@ def check(case, acc):
       before = [_visible_text(doc, t)[0] for t in times]
     except ValueError:
       before = None
+  # computed text alignment of every paragraph before the filter (compared afterwards when the configuration preserves it)
+  align_before = None
+  if c[1]:
+    try:
+      align_before = [_p_aligns(ISD.from_model(doc, t)) for t in times]
+    except ValueError:
+      align_before = None
   fp0 = fp_doc(doc)
   cfg = mkcfg(c)
   sa = c[0]
@@ -160,6 +177,13 @@ def check(case, acc):
       if before is not None and txt != before[i]:
         acc.violation("C16.text-preserved", _text_disc(before[i], txt), dict(cc, t=t), observed=txt, expected=before[i], note=f"visible text changed at t={t}")
         break
+      if align_before is not None and not hiding:
+        now = _p_aligns(isd)
+        diff = sorted(k for k in now if k in align_before[i] and now[k] != align_before[i][k])
+        if diff:
+          acc.violation("C16.computed.align", "preserved-alignment-changed", dict(cc, t=t), observed={k: now[k] for k in diff},
+                        expected={k: align_before[i][k] for k in diff}, note="preserve_text_align: the computed textAlign of a paragraph differs from the one before the filter")
+          break
       bad = False
       for reg in isd.iter_regions():
         o, x = enc_val(reg.get_style(SP.Origin)), enc_val(reg.get_style(SP.Extent))
@@ -230,13 +254,13 @@ DALIGN = [None, "before", "center", "after"]
 WM = [None, "rltb", "tbrl", "tblr"]
 INIT = [None, ["Extent", ["ext", L(30, "%"), L(40, "%")]], ["Origin", ["org", L(20, "%"), L(70, "%")]],
         ["Position", ["pos", L(5, "%"), L(5, "%"), "right", "bottom"]], ["Color", RED], ["DisplayAlign", E("DisplayAlignType", "after")],
-        ["WritingMode", E("WritingModeType", "tbrl")], ["FontSize", L(2, "c")]]
+        ["WritingMode", E("WritingModeType", "tbrl")], ["FontSize", L(2, "c")], ["TextAlign", E("TextAlignType", "end")]]
 STEPS = [["Origin", None, F(1), ["org", L(1, "%"), L(1, "%")]], ["Extent", F(1), F(2), ["ext", L(9, "%"), L(9, "%")]],
-         ["BackgroundColor", F(2), None, RED]]
+         ["BackgroundColor", F(2), None, RED], ["Origin", None, F(1), ["org", L(1, "%"), L(1, "%")]]]      # the 4th equals the 1st
 
 
 def fam_geom(configs):
-  prod = Product([range(len(GEOM)), DALIGN, WM, [0, 1, 2, 3], range(len(INIT)), configs])
+  prod = Product([range(len(GEOM)), DALIGN, WM, [0, 1, 2, 3, 4], range(len(INIT)), configs])
 
   def dec(i):
     gi, da, wm, ns, ii, c = prod.decode(i)
@@ -244,6 +268,8 @@ def fam_geom(configs):
     st = dict(copy.deepcopy(GEOM[gi]))
     if da:
       st["DisplayAlign"] = E("DisplayAlignType", da)
+    if da == "after":
+      st["TextAlign"] = E("TextAlignType", "end")      # inherited by the paragraphs flowed into the region (preserve_text_align)
     if wm:
       st["WritingMode"] = E("WritingModeType", wm)
     spec["regions"][0]["st"] = st
@@ -320,7 +346,7 @@ def fam_content(configs):
            ("FontWeight", E("FontWeightType", "bold")), ("Position", ["pos", L(1, "%"), L(1, "%"), "left", "top"]),
            ("LineHeight", L(125, "%")), ("TextDecoration", ["td", True, None, None])]
   # nobody: 0 = the chain body/div/p/span, 1 = no body at all, 2 = a body without children (which still carries styles and steps)
-  prod = Product([kinds, range(len(props)), [0, 1, 2, 3], [0, 1, 2], configs])
+  prod = Product([kinds, range(len(props)), [0, 1, 2, 3, 4], [0, 1, 2], configs])
 
   def dec(i):
     k, pi, ns, nobody, c = prod.decode(i)
@@ -330,7 +356,7 @@ def fam_content(configs):
     nodes = {"body": spec["body"], "div": spec["body"]["c"][0], "p": spec["body"]["c"][0]["c"][0], "span": spec["body"]["c"][0]["c"][0]["c"][0]}
     pn, pv = props[pi]
     nodes[k].setdefault("st", {})[pn] = pv
-    steps = [["Color", None, F(1), RED], ["Color", F(1), F(2), BLUE], ["BackgroundColor", F(2), None, RED]]
+    steps = [["Color", None, F(1), RED], ["Color", F(1), F(2), BLUE], ["BackgroundColor", F(2), None, RED], ["Color", None, F(1), RED]]   # the 4th equals the 1st
     if ns:
       nodes[k]["an"] = copy.deepcopy(steps[:ns])
     if nobody == 1:
